@@ -30,11 +30,14 @@ ASSUMPTIONS = [
     'FermiHubbardModel parameters are valid (constructor ValueErrors are not explored)',
 ]
 OPEN_STATEMENTS = [
-    'hubbard_sound (operator-level: fermi_hubbard / bose_hubbard / mean_field_dwave Model output denotes the docstring formula for ALL sizes) is not a theorem: covered by the docstring / spec.eq oracles on the explored lattices; the theorems cover the bond enumeration (all x, y), the neighbour iterators, the number-conserving term shapes and the grid index bijection',
+    'hubbard_sound (operator-level: the Model output of fermi_hubbard / bose_hubbard / mean_field_dwave / FermiHubbardModel denotes the docstring formula for ALL sizes) is not a theorem: covered by the docstring / spec.eq oracles on the explored lattices; proved for all sizes: the bond enumerations equal the Spec edge set (bonds_spec, dwave_bonds_spec, lattice_neighbors_spec, neighbors_ordered_perm, hubbard_generators_agree_bonds), every generated term has zero charge for N (and S_z where the model conserves it) and zero-charge terms preserve the Spec weight of basis states (term_charge_sound), the grid index bijection',
     'hermitian_generators is covered by the spec.eq oracle only',
+    'horizontal_neighbor / vertical_neighbor edge types separately (Spec adjH / adjV) and the onsite edge type: correspondence + Spec oracle only; the theorem is stated for their union (neighbor)',
+    'bose_hubbard / mean_field_dwave / FermiHubbardModel: S_z conservation of FermiHubbardModel is covered by the spec.eq oracle only',
     'su2_relations for all n: oracle only (n <= 3)',
     'fourier_transform_unitary_structure / isospectrality: numeric oracle only',
-    'diagonal_neighbors_iter equals the Spec diagonal edge set only for periodic lattices with y >= 3 (or x = 1 / y = 1): known finding C13-diagonal-neighbors; no theorem is stated for it',
+    'isospectrality of momentum-space and position-space jellium fails on non-orthogonal cells with mixed even / >= 3 grid lengths: known finding C13-jellium-sheared-even',
+    'diagonal_neighbors_iter = Spec diagonal edge set (adjD): correspondence + Spec oracle on all lattices x, y <= 7 / 10; no theorem yet',
 ]
 
 EDGE_NAMES = ['onsite', 'neighbor', 'diagonal_neighbor', 'horizontal_neighbor', 'vertical_neighbor']
@@ -534,10 +537,6 @@ def gen_fhm(rng, big):
         inter.append([e, a, aa, rng.choice([1.0, 1, coupling(rng, 0.05)]), sp])
     for _ in range(rng.randint(0, 2)):
         pot.append([rng.randrange(n_dofs), coupling(rng, 0.05)])
-    if c['phs'] and rng.random() < 0.6:
-        # keep most particle-hole cases outside the input class of known finding C13-phs-coefficient
-        inter = [[e, a, aa, 1.0, sp] for e, a, aa, _, sp in inter]
-        pot = []
     c.update(tunneling=tun, interaction=inter, potential=pot)
     return c
 
@@ -610,22 +609,6 @@ def doc_fhm(c, E):
     return A.d, n_sites * per
 
 
-def uses_bad_diagonal(c):
-    """input class of known finding C13-diagonal-neighbors"""
-    bad_lattice = c['x'] >= 2 and c['y'] >= 2 and (c['y'] == 2 or not c['periodic'])
-    return bad_lattice and any(p[0] == 2 for p in c['tunneling'] + c['interaction'])
-
-
-def uses_phs_coefficient(c):
-    """input class of known finding C13-phs-coefficient"""
-    return c['phs'] and (any(Fraction(p[3]) != 1 for p in c['interaction']) or bool(c['potential']))
-
-
-def uses_spinless_diff(c):
-    """input class of known finding C13-spinless-diff"""
-    return c['spinless'] and any(p[4] == 'DIFF' for p in c['interaction'])
-
-
 def stream_fhm(ctx, E):
     of = ctx.of
     s = Stream('fermi-hubbard-model', 'random valid FermiHubbardModel parameter sets (lattices <= 3x3 (thorough: + 2x4, 4x2), n_dofs <= 3, '
@@ -633,7 +616,7 @@ def stream_fhm(ctx, E):
                '4 parts vs Model exactly; docstring formula over Spec edge sets; Hermiticity / N / S_z conservation (spec.eq, <= 8 modes); '
                'FermiHubbardModel = fermi_hubbard where the conventions coincide')
     rng = rng_for(ctx.seed, 'c13-fhm')
-    n = budget(ctx.tier, 120, 1500)
+    n = budget(ctx.tier, 300, 1500)
     if ctx.drift:
         n = max(n, 600)
     cases = [gen_fhm(rng, ctx.tier == 'thorough') for _ in range(n)]
@@ -844,16 +827,61 @@ def stream_grid(ctx):
         if io != mo:
             s.disagree('Grid.' + ('orbital_id' if kind == 'oid' else 'grid_indices'), c, io, mo)
     # --- jellium generators
-    grids = [([2], 1.0), ([3], 2.0), ([4], 0.5), ([5], 1.5), ([2, 2], 1.0), ([3, 3], 2.0), ([2, 3], 1.0), ([3, 2], 0.75)]
+    # cubic cells (float scale) and sheared / non-symmetric supercells (matrix scale, columns = cell vectors)
+    grids = [([2], 1.0), ([3], 2.0), ([4], 0.5), ([5], 1.5), ([2, 2], 1.0), ([3, 3], 2.0), ([2, 3], 1.0), ([3, 2], 0.75),
+             ([2, 2], [[1.3, 0.5], [0.0, 0.9]]), ([3, 2], [[1.0, 0.4], [0.2, 1.5]]), ([2, 3], [[0.8, -0.3], [0.5, 1.1]]),
+             ([3], [[1.7]])]
     if ctx.tier == 'thorough' or ctx.drift:
-        grids += [([6], 1.0), ([4, 4], 1.25), ([4, 3], 1.0), ([2, 2, 2], 1.0), ([3, 2, 2], 2.0), ([3, 3, 3], 1.5)]
+        grids += [([6], 1.0), ([4, 4], 1.25), ([4, 3], 1.0), ([2, 2, 2], 1.0), ([3, 2, 2], 2.0), ([3, 3, 3], 1.5),
+                  ([3, 3], [[1.2, 0.7], [-0.1, 0.9]]), ([2, 2, 2], [[1.0, 0.2, 0.1], [0.0, 1.1, 0.3], [0.4, 0.0, 0.9]]),
+                  ([2, 2], [[0.0, 1.1], [0.7, 0.2]])]
+    for _ in range(budget(ctx.tier, 2, 8)):
+        L = [rng.randint(2, 3), rng.randint(2, 3)]
+        M = [[rng.randint(4, 12) / 8, rng.randint(-6, 6) / 8], [rng.randint(-6, 6) / 8, rng.randint(4, 12) / 8]]
+        if abs(M[0][0] * M[1][1] - M[0][1] * M[1][0]) > 0.25:
+            grids.append((L, M))
     pi = math.pi
     for L, scale in grids:
         dim = len(L)
-        g = Grid(dim, tuple(L), scale)
-        V = scale ** dim
+        cubic = isinstance(scale, float)
+        S = numpy.diag([scale] * dim) if cubic else numpy.array(scale, dtype=float)
+        try:
+            g = Grid(dim, tuple(L), scale if cubic else numpy.array(scale, dtype=float))
+        except Exception as e:  # noqa: BLE001
+            s.violate('Grid raised on an admissible cell', {'length': L, 'scale': scale}, repr(e))
+            continue
+        V = abs(float(numpy.linalg.det(S)))
+        B = 2 * pi * numpy.linalg.inv(S).T        # columns b_i with b_i . a_j = 2 pi delta_ij
         npts = int(numpy.prod(L))
         pts = list(itertools.product(*[range(l) for l in L]))
+
+        def kvec(idx):
+            return B @ numpy.array([idx[i] - L[i] // 2 for i in range(dim)], dtype=float)
+
+        def rvec(idx):
+            return S @ numpy.array([(idx[i] - L[i] // 2) / L[i] for i in range(dim)], dtype=float)
+        # Grid geometry against the docstring ("vectors are stored as columns"; reciprocal lattice b_i . a_j = 2 pi delta_ij)
+        cg = {'length': L, 'scale': scale, 'call': 'Grid geometry'}
+        s.case(cg)
+        s.count('grid-geometry:' + ('cubic' if cubic else 'matrix-scale'))
+        try:
+            s.float_comparisons += 1 + dim * dim + 2 * dim * len(pts)
+            if abs(g.volume_scale() - V) > TOL:
+                s.violate('Grid.volume_scale() is not |det(scale)|', cg, {'volume_scale': float(g.volume_scale()), 'det': V})
+            dual = numpy.array(g.reciprocal_scale).T @ numpy.array(g.scale)
+            if numpy.max(numpy.abs(dual - 2 * pi * numpy.eye(dim))) > TOL:
+                s.violate('reciprocal lattice vectors do not satisfy b_i . a_j = 2 pi delta_ij', cg, {'b_i . a_j': dual.tolist()})
+            for idx in pts:
+                if numpy.max(numpy.abs(numpy.array(g.momentum_vector(idx)) - kvec(idx))) > TOL:
+                    s.violate('momentum_vector(indices) is not sum_i n_i b_i', dict(cg, indices=list(idx)),
+                              {'momentum_vector': numpy.array(g.momentum_vector(idx)).tolist(), 'expected': kvec(idx).tolist()})
+                    break
+                if numpy.max(numpy.abs(numpy.array(g.position_vector(idx)) - rvec(idx))) > TOL:
+                    s.violate('position_vector(indices) is not sum_i (n_i / N_i) a_i', dict(cg, indices=list(idx)),
+                              {'position_vector': numpy.array(g.position_vector(idx)).tolist(), 'expected': rvec(idx).tolist()})
+                    break
+        except Exception as e:  # noqa: BLE001
+            s.violate('Grid geometry function raised', cg, repr(e))
         for spinless in (True, False):
             if not spinless and npts > 9 and ctx.tier != 'thorough':
                 continue
@@ -862,10 +890,12 @@ def stream_grid(ctx):
             c = {'length': L, 'scale': scale, 'spinless': spinless}
             s.case(c)
             s.count('jellium-grids')
-            mk, mp, ms = ctx.driver.run([
+            mk, mp, ms, sk, sp_ = ctx.driver.run([
                 {'op': 'c13.pw_kinetic', 'length': L, 'spinless': spinless},
                 {'op': 'c13.pw_potential', 'length': L, 'spinless': spinless},
-                {'op': 'c13.dual_structure', 'length': L, 'spinless': spinless, 'kinetic': True, 'potential': True}])
+                {'op': 'c13.dual_structure', 'length': L, 'spinless': spinless, 'kinetic': True, 'potential': True},
+                {'op': 'c13.pw_kinetic_struct', 'length': L, 'spinless': spinless},
+                {'op': 'c13.pw_potential_struct', 'length': L, 'spinless': spinless}])
             try:
                 K = jm.plane_wave_kinetic(g, spinless)
                 P = jm.plane_wave_potential(g, spinless)
@@ -878,22 +908,37 @@ def stream_grid(ctx):
             except Exception as e:  # noqa: BLE001
                 s.violate('jellium generator raised on an admissible grid', c, repr(e))
                 continue
-            # Model (exact rational x unit)
-            for name, impl, mo, unit in (('plane_wave_kinetic', K, mk, (pi / scale) ** 2),
-                                         ('plane_wave_potential', P, mp, scale * scale / (pi * V))):
-                md = {tuple((i, a) for i, a in t): float(Fraction(cf[0], cf[1])) * unit for t, cf in mo}
+            # Model (exact rational x unit): cubic cells only
+            if cubic:
+                for name, impl, mo, unit in (('plane_wave_kinetic', K, mk, (pi / scale) ** 2),
+                                             ('plane_wave_potential', P, mp, scale * scale / (pi * V))):
+                    md = {tuple((i, a) for i, a in t): float(Fraction(cf[0], cf[1])) * unit for t, cf in mo}
+                    idd = float_terms(impl)
+                    if name == 'plane_wave_potential' and set(md) != set(idd):
+                        s.disagree(name + ' keys', c, sorted(map(str, set(idd) ^ set(md)))[:6], 'symmetric difference of key sets')
+                    worst, wk = close_dicts(s, idd, md)
+                    if worst > TOL:
+                        s.disagree(name + ' coefficient', c, [wk, idd.get(wk)], [wk, md.get(wk)])
+            # any cell: index structure from the Model, |k|^2 from the independent numpy reciprocal basis
+            # (plane_wave_kinetic = sum_k |k|^2/2 n_k;  plane_wave_potential coefficient (2 pi / V) / |k_omega|^2)
+            mdk, mdp = {}, {(): 0.0}
+            for t, n in sk:
+                k = B @ numpy.array(n, dtype=float)
+                key = tuple((i, a) for i, a in t)
+                mdk[key] = mdk.get(key, 0.0) + float(k.dot(k)) / 2.0
+            for t, n in sp_:
+                k = B @ numpy.array(n, dtype=float)
+                key = tuple((i, a) for i, a in t)
+                mdp[key] = mdp.get(key, 0.0) + (2 * pi / V) / float(k.dot(k))
+            for name, impl, md in (('plane_wave_kinetic', K, mdk), ('plane_wave_potential', P, mdp)):
                 idd = float_terms(impl)
                 if name == 'plane_wave_potential' and set(md) != set(idd):
                     s.disagree(name + ' keys', c, sorted(map(str, set(idd) ^ set(md)))[:6], 'symmetric difference of key sets')
                 worst, wk = close_dicts(s, idd, md)
                 if worst > TOL:
-                    s.disagree(name + ' coefficient', c, [wk, idd.get(wk)], [wk, md.get(wk)])
+                    s.violate(name + ' coefficient differs from the formula over the reciprocal lattice', c,
+                              {'term': wk, 'implementation': idd.get(wk), 'expected': md.get(wk)})
             # dual basis: structure from the Model, coefficients evaluated here
-            def kvec(idx):
-                return numpy.array([2 * pi * (idx[i] - L[i] // 2) / scale for i in range(dim)])
-
-            def rvec(idx):
-                return numpy.array([(idx[i] - L[i] // 2) * scale / L[i] for i in range(dim)])
             Kd, Pd = {}, {}
             for b in pts:
                 diff = rvec(b) - rvec((0,) * dim)
@@ -988,39 +1033,39 @@ def stream_grid(ctx):
 
 # ---------------------------------------------------------------- known findings
 
+def sheared_even_class(c):
+    """input class of known finding C13-jellium-sheared-even: non-orthogonal cell, an even number of points along
+    one dimension and >= 3 points along another"""
+    import numpy
+    sc, L = c.get('scale'), c.get('length')
+    if not isinstance(sc, list) or not L or len(L) < 2:
+        return False
+    S = numpy.array(sc, dtype=float)
+    G = numpy.linalg.inv(S) @ numpy.linalg.inv(S).T
+    nonorth = numpy.max(numpy.abs(G - numpy.diag(numpy.diag(G)))) > 1e-12
+    return bool(nonorth) and any(L[i] % 2 == 0 and any(L[j] >= 3 for j in range(len(L)) if j != i) for i in range(len(L)))
+
+
 def classify(v):
     what = v.get('what', '')
     c = v.get('input') or {}
-    if what.startswith('site_pairs_iter(diagonal_neighbor)') and c.get('x', 0) >= 2 and c.get('y', 0) >= 2 \
-            and (c.get('y') == 2 or not c.get('periodic')):
-        return 'C13-diagonal-neighbors'
-    if what.startswith('FermiHubbardModel.hamiltonian()') and 'docstring' in what and 'tunneling' in c:
-        if uses_bad_diagonal(c):
-            return 'C13-diagonal-neighbors'
-        if uses_phs_coefficient(c):
-            return 'C13-phs-coefficient'
-        if uses_spinless_diff(c):
-            return 'C13-spinless-diff'
+    if v.get('stream') == 'grid-jellium' and (what.startswith('dual-basis one-body term is not the Fourier transform')
+                                              or what.startswith('momentum-space and position-space jellium are not isospectral')):
+        if sheared_even_class(c):
+            return 'C13-jellium-sheared-even'
     return None
 
 
 def probe_known(ctx, k):
     of = ctx.of
-    from openfermion.utils import HubbardSquareLattice, SpinPairs
     try:
-        if k['id'] == 'C13-diagonal-neighbors':
-            got = sorted(HubbardSquareLattice(2, 2, periodic=True).site_pairs_iter('diagonal_neighbor', False))
-            return sorted((min(a, b), max(a, b)) for a, b in got) != [(0, 3), (1, 2)]
-        if k['id'] == 'C13-phs-coefficient':
-            lat = HubbardSquareLattice(1, 1, periodic=False)
-            H = of.FermiHubbardModel(lat, interaction_parameters=[('onsite', (0, 0), 2.0)],
-                                     particle_hole_symmetry=True).hamiltonian()
-            # docstring: 2 (n_up - 1/2)(n_down - 1/2) = 2 n n - n_up - n_down + 1/2
-            return H.terms.get(((1, 1), (1, 0)), 0) != -1.0 or H.terms.get((), 0) != 0.5
-        if k['id'] == 'C13-spinless-diff':
-            lat = HubbardSquareLattice(2, 1, periodic=False, spinless=True)
-            H = of.FermiHubbardModel(lat, interaction_parameters=[('neighbor', (0, 0), 1.0, SpinPairs.DIFF)]).hamiltonian()
-            return len(H.terms) == 0
+        if k['id'] == 'C13-jellium-sheared-even':
+            import numpy
+            from openfermion.utils import Grid
+            g = Grid(2, (3, 2), numpy.array([[1.0, 0.4], [0.2, 1.5]]))
+            ea = numpy.linalg.eigvalsh(of.get_sparse_operator(of.jellium_model(g, True, True), 6).toarray())
+            eb = numpy.linalg.eigvalsh(of.get_sparse_operator(of.jellium_model(g, True, False), 6).toarray())
+            return bool(numpy.max(numpy.abs(ea - eb)) > 1e-6)
     except Exception:  # noqa: BLE001
         return True
     return False
